@@ -102,3 +102,27 @@ Definition logline_end_offset (found : bool) (off : Z) : Z :=
 Definition alloc_rollover (data_len : Z) (bsize : Z) (last_used : bool) : bool :=
   ((negb (data_len =? 0)) && ((data_len mod bsize) =? 0) && last_used).
 
+(* source:
+   self.stats['results'] += len(results)
+*)
+Definition put_result_increment (batch_len : Z) : Z :=
+  batch_len.
+
+(* source:
+   self.stats['lines_searched'] += 1
+*)
+Definition lines_searched_increment (tt_ : unit) : Z :=
+  1.
+
+(* source:
+   self.stats['total_jobs'] += 1
+*)
+Definition total_jobs_increment (tt_ : unit) : Z :=
+  1.
+
+(* source:
+   self.stats['jobs_completed'] += 1
+*)
+Definition jobs_completed_increment (tt_ : unit) : Z :=
+  1.
+
